@@ -690,7 +690,15 @@ func (x *XRefParser) ParseAllXRefs() ([]*XRefTable, error) {
 
 	// Parse previous XRefs
 	currentTable := mainTable
+	seenPrev := make(map[int64]bool)
 	for {
+		// A /Prev chain that revisits an offset would never end
+		if prevInt, ok := currentTable.Trailer.Get("Prev").(Int); ok {
+			if seenPrev[int64(prevInt)] {
+				return nil, fmt.Errorf("cyclic /Prev chain at offset %d", int64(prevInt))
+			}
+			seenPrev[int64(prevInt)] = true
+		}
 		prevTable, err := x.ParsePrevXRef(currentTable)
 		if err != nil {
 			return nil, fmt.Errorf("failed to parse prev xref: %w", err)
